@@ -1,7 +1,9 @@
 //! rdh — correspondence harness for rand_distr. Reads one command per line on stdin,
 //! writes one result line per command on stdout (prefixed by the command tag).
 mod alias;
+mod ctor;
 mod rng;
+mod multi;
 mod samp;
 mod ser;
 mod tree;
@@ -43,30 +45,58 @@ fn zig_line() -> String {
     parts.join(";")
 }
 
+fn dispatch(line: &str) -> String {
+    let toks: Vec<&str> = line.split_whitespace().collect();
+    if toks.is_empty() {
+        return String::new();
+    }
+    match toks[0] {
+        "tree" => tree_line(&toks),
+        "alias" => alias_line(&toks),
+        "samp" => samp::line(&toks),
+        "ctor" => ctor::line(&toks),
+        "serde" => ser::line(&toks),
+        "sweep" => samp::sweep(&toks),
+        "many" => samp::many(&toks),
+        "lat" => samp::lat(&toks),
+        "pure" => samp::pure(&toks),
+        "multi" => multi::line(&toks),
+        "zig" => zig_line(),
+        "ping" => "pong".to_string(),
+        other => format!("unknown:{}", other),
+    }
+}
+
 fn main() {
     std::panic::set_hook(Box::new(|_| {}));
+    // RDH_TIMEOUT_MS: wall-clock watchdog per command; a command that does not finish prints HANG
+    // (its thread keeps spinning until the process exits)
+    let timeout_ms: Option<u64> = std::env::var("RDH_TIMEOUT_MS").ok().and_then(|s| s.parse().ok());
     let stdin = std::io::stdin();
     let stdout = std::io::stdout();
     let mut out = std::io::BufWriter::new(stdout.lock());
     for line in stdin.lock().lines() {
         let line = line.unwrap();
-        let toks: Vec<&str> = line.split_whitespace().collect();
-        if toks.is_empty() {
+        if line.trim().is_empty() {
             continue;
         }
-        let r = match toks[0] {
-            "tree" => tree_line(&toks),
-            "alias" => alias_line(&toks),
-            "samp" => samp::line(&toks),
-            "serde" => ser::line(&toks),
-            "sweep" => samp::sweep(&toks),
-            "many" => samp::many(&toks),
-            "lat" => samp::lat(&toks),
-            "pure" => samp::pure(&toks),
-            "zig" => zig_line(),
-            "ping" => "pong".to_string(),
-            other => format!("unknown:{}", other),
+        let r = match timeout_ms {
+            None => dispatch(&line),
+            Some(ms) => {
+                let (tx, rx) = std::sync::mpsc::channel();
+                let l = line.clone();
+                std::thread::Builder::new()
+                    .stack_size(64 << 20)
+                    .spawn(move || {
+                        let r = std::panic::catch_unwind(std::panic::AssertUnwindSafe(|| dispatch(&l)))
+                            .unwrap_or_else(|_| "CRASH:panic".to_string());
+                        let _ = tx.send(r);
+                    })
+                    .unwrap();
+                rx.recv_timeout(std::time::Duration::from_millis(ms)).unwrap_or_else(|_| "HANG".to_string())
+            }
         };
         writeln!(out, "{}", r).unwrap();
+        out.flush().unwrap();
     }
 }
